@@ -54,7 +54,7 @@ def build(prop, models=None):
         # only this property's theorem files (with their dependencies) and the executable model:
         # a broken proof of another property must not raise an alarm here
         targets = [os.path.relpath(f, COQ) + "o" for f in sorted(glob.glob(os.path.join(COQ, "Props", prop + "*.v")))]
-        targets += ["Float/Run.vo", "Float/Fops.vo"]
+        targets += ["Float/Run.vo", "Float/Fops.vo", "Float/DRun.vo", "Model/Dual.vo"]
         if models is None:
             for d in ("Model", "Generated"):
                 targets += [os.path.relpath(f, COQ) + "o" for f in sorted(glob.glob(os.path.join(COQ, d, "*.v")))]
@@ -91,6 +91,9 @@ def theorems_of(prop):
     """(theorem names in Props/<prop>*.v, assumptions per theorem as printed by coqc)"""
     files = sorted(glob.glob(os.path.join(COQ, "Props", prop + "*.v")))
     names, assumptions, problems = [], {}, []
+    from concurrent.futures import ThreadPoolExecutor
+    with ThreadPoolExecutor(max_workers=12) as ex:
+        compiled = dict(zip(files, ex.map(lambda f: sh(["coqc"] + core.COQ_Q + core.COQ_W + [f], 900, cwd=os.path.dirname(f)), files)))
     for f in files:
         src = open(f).read()
         ths = re.findall(r"^\s*Theorem\s+([A-Za-z0-9_']+)", src, re.M)
@@ -99,7 +102,7 @@ def theorems_of(prop):
         for t in ths:
             if t not in pas:
                 problems.append("theorem %s has no Print Assumptions" % t)
-        rc, out = sh(["coqc"] + core.COQ_Q + core.COQ_W + [f], 900, cwd=os.path.dirname(f))
+        rc, out = compiled[f]
         if rc != 0:
             problems.append("coqc %s failed: %s" % (os.path.basename(f), out[-1500:]))
             continue
